@@ -116,7 +116,7 @@ void scen_runtime(hx::Desc& d) {
 
 SIM_SCENARIO(scen_c02, "c02", "C02", 4000000, 15000) {
     hx::Desc d;
-    hx::draw_runtime_config(d, 8);
+    hx::draw_runtime_config(d, 8, /*allow_warm=*/false);   // cold arenas are the point of these scenarios; variant 4 warms by itself
     sim::g_cfg.tso = sim::draw_bool("tso");
     if (sim::draw(3, "layer") == 0) scen_monitor(d); else scen_runtime(d);
 }
